@@ -13,7 +13,7 @@ From Coq Require Import NArith List String Bool.
 From Coq Require Import Strings.Byte.
 From PDL Require Import Base.Bits Base.Outcome Lang.Ast Lang.Sexp Analyzer.Schema Analyzer.Passes Rust.Enum
      Sem.RefEncode Rust.Encode Rust.Decode Proofs.Pack Proofs.BitfieldEncode Proofs.RoundTrip
-     Proofs.SchemaEnums Proofs.RoundTripReal.
+     Proofs.SchemaEnums Proofs.RoundTripReal Analyzer.Analyze Proofs.AnalyzerSchema.
 Import ListNotations.
 Open Scope N_scope.
 
@@ -68,6 +68,36 @@ Theorem C02_bitfield_declarations_round_trip :
     end.
 Proof. exact rust_roundtrip_fragment_real_schema. Qed.
 Print Assumptions C02_bitfield_declarations_round_trip.
+
+(** The same from ACCEPTANCE BY THE ANALYZER alone (Proofs/AnalyzerSchema.v): if the model of
+    analyzer::analyze accepts a file and returns the analyzed file [af] with its schema, then
+    [af]'s enums pass the enum check, the analyzer's schema IS the one the backend theorems
+    are about ([mk_schema af]; the two models of Schema::new are proved to agree on every
+    file that passes the padding check), and the round trip holds for every root declaration
+    of the fragment.  The one hypothesis left besides acceptance says that the Rust
+    generator is defined on the enums (width <= 64, a value or range tag: F11/F12 otherwise). *)
+Theorem C02_accepted_files_round_trip :
+  forall (fuel fuel' : nat) (oc : bool) (file af : file) (sch : aschema) (id : string) (d : decl)
+         (o : list (string * value)) (bs tl : list byte),
+    analyze_with_schema file = Accepted (af, sch) ->
+    enums_generable af ->
+    lookup_decl af id = Some d ->
+    root_of_fragment af d ->
+    canonical_obj o (decl_fields d) ->
+    ref_encode (S fuel) af id (VObj o) = Some bs ->
+    match rust_encode (S fuel) af (as_decls sch) id (VObj o) with
+    | Ok bs' =>
+        bs' = bs /\
+        match rust_decode (S fuel') oc af (as_decls sch) id (bs' ++ tl) with
+        | Ok r => r = (VObj o, tl)
+        | Panic GenAssert => True
+        | _ => False
+        end
+    | Panic GenAssert => True
+    | _ => False
+    end.
+Proof. exact accepted_roundtrip. Qed.
+Print Assumptions C02_accepted_files_round_trip.
 
 (** non-vacuity: a concrete big-endian file (an enum with a range and a default tag, a
     packet with a 3-bit scalar, the enum, a fixed field, reserved bits and a 24-bit scalar)
